@@ -180,6 +180,8 @@ class C03(core.Check):
         labs = [f'stype:{st}', f'family:{st}/{case["family"]}', f'mode:{case["mode"]}', f'index:{case.get("index")}',
                 f'rows:{min(len(case["cells"]), 13)}{"+" if len(case["cells"]) > 13 else ""}']
         labs.append('path:computed' if self.nontrivial_key(case, r) else 'path:defaults')
+        if case.get('extra_emb_width'):
+            labs.append('two-embedding-blocks')
         for w in ('direct', 'dataset'):
             if r.get(w) == 'raises':
                 labs.append(f'raises:{st}/{w}')
